@@ -365,6 +365,18 @@ def plsr_cases(p, r):
     if st == "ok":
         cs.append(f"KPlsrPredict {qt(xm)} {qt(ym)} {loads} {qt(r.coef_)} {qt(r.Y_factors[1])} {qt(Xn)} {qt(pr)}")
     cs.append(f"KMean {qt(X)} {qt(xm)}")
+    # the Y branch of transform on the training data
+    Y2 = np.asarray(p["y"], dtype=np.float64)
+    Y2 = Y2.reshape(-1, 1) if Y2.ndim == 1 else Y2
+    st, trxy = call(r.transform, X.copy(), Y2.copy())
+    if st == "ok" and isinstance(trxy, tuple) and len(trxy) == 2:
+        coef = np.asarray(r.coef_, dtype=np.float64)
+        yl = np.asarray(r.Y_factors[1], dtype=np.float64)
+        ys = np.asarray(trxy[1], dtype=np.float64)
+        bs = lst(C.q_list(coef[:, c].tolist()) for c in range(ncomp))
+        qs = lst(qt(yl[:, c]) for c in range(ncomp))
+        exp = lst(C.q_list(ys[:, c].tolist()) for c in range(ncomp))
+        cs.append(f"KPlsrTransformY {qt(xm)} {qt(ym)} {loads} {bs} {qs} {qt(X)} {qt(Y2)} {exp}")
     return cs
 
 
@@ -373,14 +385,14 @@ def plsr_fit_problems(tier, rng):
     """small problems on which the number of passes of the inner iteration is pinned: tol = 0 (never stops early,
     exactly n_iter_max passes) or tol = 1e300 (stops after the second pass)"""
     probs = []
-    nfit = 14 if tier == "quick" else 150
+    nfit = 20 if tier == "quick" else 150
     for k in range(nfit):
         order = rng.choice([1, 2, 2, 3])
         sx = tuple(rng.randint(2, 3) for _ in range(order))
-        n = rng.randint(3, 6)
+        n = rng.randint(3, 7)
         m = rng.choice([0, 1, 2, 3])
         cmax = max(1, min(3, n - 2, int(np.prod(sx)) - 1))
-        ncomp = rng.randint(1, cmax)
+        ncomp = cmax if k % 2 else rng.randint(1, cmax)
         X = dyadic(rng, (n,) + sx, denom=16, lo=-48, hi=48)
         B = dyadic(rng, (int(np.prod(sx)), max(m, 1)), denom=4, lo=-8, hi=8)
         Y = X.reshape(n, -1) @ B + 0.25 * dyadic(rng, (n, max(m, 1)), denom=8, lo=-16, hi=16)
